@@ -186,3 +186,24 @@ extern "C" void h_wide(void)
 	vp_note(L);
 	vp_reach(7);
 }
+
+// String(const Array<wchar_t>&): p0 = number of scalar values (0: empty array); the array is exactly as long as the wide text
+// (no terminator), so reading one unit too many is an out-of-bounds access
+extern "C" void h_from_wide_array(void)
+{
+	int k = vp_param(0);
+	Array<wchar_t> w; byte ref[16]; int rl = 0;
+	for (int i = 0; i < k; i++) {
+		unsigned c = nondet_u32(); vp_assume(c >= 1 && c <= 0x10FFFF && !(c >= 0xD800 && c <= 0xDFFF));
+		rl += ref_utf8(c, ref + rl);
+		// asl's wide strings hold UTF-16 units whatever sizeof(wchar_t) is
+		if (c < 0x10000) w << (wchar_t)c;
+		else { unsigned v = c - 0x10000; w << (wchar_t)(0xD800 + (v >> 10)) << (wchar_t)(0xDC00 + (v & 0x3ff)); }
+	}
+	rl = vp_concretize(rl);
+	String s(w);
+	vp_assert(s.length() == rl, "String(Array<wchar_t>) has the UTF-8 length of the scalar values");
+	for (int i = 0; i < rl && i < s.length(); i++) vp_assert((byte)(*s)[i] == ref[i], "String(Array<wchar_t>) bytes");
+	vp_note(rl);
+	vp_reach(8);
+}
